@@ -6,6 +6,7 @@ pub mod extract;
 pub mod group;
 pub mod history;
 pub mod matching;
+pub mod rw;
 pub mod sesscc;
 pub mod slots;
 
@@ -46,6 +47,10 @@ pub fn registry() -> Vec<Box<dyn Check>> {
         Box::new(extract::ExtractCheck),
         Box::new(matching::MatchCheck),
         Box::new(matching::FireCheck),
+        Box::new(rw::RwCheck { id: "C03" }),
+        Box::new(rw::RwCheck { id: "C14" }),
+        Box::new(rw::RwCheck { id: "C08R" }),
+        Box::new(rw::StopCheck),
         Box::new(cross::CrossCheck { id: "C11" }),
         Box::new(cross::CrossCheck { id: "C12" }),
         Box::new(history::HistoryCheck),
